@@ -536,6 +536,39 @@ theorem toU64_of_nonneg {n : Int} (h0 : 0 ≤ n) (hlt : n < 2 ^ 64) : toU64 n = 
   unfold toU64
   rw [Int.emod_eq_of_lt h0 hlt]
 
+/-- `shimTxn` (classify, one backend call, shape the answer) is the `if` chain of `RPCServer.Txn` over
+the three backendshim methods -/
+theorem shimTxn_cases (c : Cfg) (s : BState) (t : TxnReq) :
+    shimTxn c s t =
+      match classify t with
+      | .create p => shimCreate c s p
+      | .delete rev key true => shimDelete c s rev key
+      | .delete rev key false =>
+        match shimDelete c s rev key with
+        | (.ok r, s') => (.ok (unguardedFlag r), s')
+        | (.error e, s') => (.error e, s')
+      | .update rev key val _ => shimUpdate c s rev key val
+      | .compact => (.ok compactResp, s)
+      | .unsupported => (.error .unsupported, s) := by
+  unfold shimTxn
+  cases hcl : classify t with
+  | create p =>
+    by_cases hf : (p.ignoreLease || p.ignoreValue || p.prevKv) = true
+    · simp [backendCall, shapeTxn, shimCreate, hf]
+    · simp [backendCall, shapeTxn, shimCreate, hf]
+  | delete rev key guarded =>
+    cases guarded with
+    | true => simp [backendCall, shapeTxn, shimDelete]
+    | false =>
+      simp only [backendCall, shapeTxn, shimDelete]
+      generalize runCall c s (.delete key (toU64 rev)) = pr
+      obtain ⟨a, s'⟩ := pr
+      simp only
+      cases shapeDelete a <;> rfl
+  | update rev key val lease => simp [backendCall, shapeTxn, shimUpdate, runCall]
+  | compact => simp [backendCall, shapeTxn]
+  | unsupported => simp [backendCall, shapeTxn]
+
 theorem shimCreate_fst (c : Cfg) (s : BState) (p : PutReq) (hp : PlainPut p) :
     (shimCreate c s p).1 = match (doCreate c s p.key p.val []).1 with
       | .ok rev => .ok { ok := true, hdr := rev, resps := [.put rev], wrote := true }
@@ -545,7 +578,7 @@ theorem shimCreate_fst (c : Cfg) (s : BState) (p : PutReq) (hp : PlainPut p) :
   obtain ⟨_, h1, h2, h3⟩ := hp
   generalize hd : doCreate c s p.key p.val [] = d
   obtain ⟨r, s'⟩ := d
-  cases r <;> simp [shimCreate, h1, h2, h3, hd]
+  cases r <;> simp [shimCreate, runCall, ansOfWrite, shapeCreate, h1, h2, h3, hd]
 
 theorem shimUpdate_fst (c : Cfg) (s : BState) (rev : Int) (k v : Bytes) :
     (shimUpdate c s rev k v).1 = match (doUpdate c s k v (toU64 rev) []).1 with
@@ -555,7 +588,7 @@ theorem shimUpdate_fst (c : Cfg) (s : BState) (rev : Int) (k v : Bytes) :
       | .error e => .error (.backend e) := by
   generalize hd : doUpdate c s k v (toU64 rev) [] = d
   obtain ⟨r, s'⟩ := d
-  cases r <;> simp [shimUpdate, hd]
+  cases r <;> simp [shimUpdate, runCall, ansOfWrite, shapeUpdate, hd]
 
 theorem shimDelete_fst (c : Cfg) (s : BState) (rev : Int) (k : Bytes) :
     (shimDelete c s rev k).1 = match (doDelete c s k (toU64 rev) []).1 with
@@ -565,7 +598,7 @@ theorem shimDelete_fst (c : Cfg) (s : BState) (rev : Int) (k : Bytes) :
       | .error e => .error (.backend e) := by
   generalize hd : doDelete c s k (toU64 rev) [] = d
   obtain ⟨r, s'⟩ := d
-  cases r <;> simp [shimDelete, hd]
+  cases r <;> simp [shimDelete, runCall, ansOfWrite, shapeDelete, hd]
 
 theorem curKv_some {c : Cfg} {s : BState} {k k' v : Bytes} {r : Nat} (h : curKv c s k = some (k', v, r)) :
     k' = k ∧ r ≠ 0 := by
@@ -819,7 +852,7 @@ theorem sound_create (c : Cfg) (s : BState) (m : Mvcc) (cm : Compare) (p : PutRe
       match curKv c s p.key with
       | none => .ok { ok := true, hdr := s.dealt + 1, resps := [.put (s.dealt + 1)], wrote := true }
       | some _ => .ok { ok := false, hdr := s.dealt + 1, resps := [.put (s.dealt + 1)], wrote := false } := by
-    unfold shimTxn
+    rw [shimTxn_cases]
     rw [classify_create hc]
     simp only
     rw [shimCreate_fst c s p hp, doCreate_fst c s p.key p.val hw]
@@ -855,7 +888,7 @@ theorem sound_update_in (c : Cfg) (s : BState) (m : Mvcc) (cm : Compare) (p : Pu
           then .ok { ok := true, hdr := s.dealt + 1, resps := [.put (s.dealt + 1)], wrote := true }
           else .ok { ok := false, hdr := max (s.dealt + 1) cmod,
                      resps := [.range (max (s.dealt + 1) cmod) [(p.key, cv, cmod)] 0 false], wrote := false } := by
-    unfold shimTxn
+    rw [shimTxn_cases]
     rw [classify_update hc hp hg]
     simp only
     rw [shimUpdate_fst c s n p.key p.val, hu, doUpdate_fst c s p.key p.val n.toNat hw hexp]
@@ -914,7 +947,7 @@ theorem sound_gdelete_in (c : Cfg) (s : BState) (m : Mvcc) (cm : Compare) (d : D
                      wrote := true }
           else .ok { ok := false, hdr := max (s.dealt + 1) cmod,
                      resps := [.range (max (s.dealt + 1) cmod) [(d.key, cv, cmod)] 0 false], wrote := false } := by
-    unfold shimTxn
+    rw [shimTxn_cases]
     rw [classify_gdelete hc h0 he hg]
     simp only
     rw [shimDelete_fst c s n d.key, hu, doDelete_fst c s d.key n.toNat hw hexp]
@@ -966,7 +999,7 @@ theorem shim_udelete (c : Cfg) (s : BState) (g : RangeReq) (d : DelReq) (he : d.
     | some kv =>
       obtain ⟨k', cv, cmod⟩ := kv
       simp
-  unfold shimTxn
+  rw [shimTxn_cases]
   rw [classify_udelete he hg]
   simp only
   generalize hd : shimDelete c s 0 d.key = pr at hfst
@@ -1040,7 +1073,7 @@ theorem sound_update (c : Cfg) (s : BState) (m : Mvcc) (cm : Compare) (p : PutRe
   · left
     have hfar := toU64_far hlo hhi h63 (dealt := s.dealt) (by omega)
     refine ⟨.backend .drift, ?_⟩
-    unfold shimTxn
+    rw [shimTxn_cases]
     rw [classify_update hc hp hg]
     simp only
     rw [shimUpdate_fst c s n p.key p.val, doUpdate_drift c s p.key p.val (toU64 n) hfar]
@@ -1057,7 +1090,7 @@ theorem sound_gdelete (c : Cfg) (s : BState) (m : Mvcc) (cm : Compare) (d : DelR
         match curKv c s d.key with
         | none => .ok { ok := false, hdr := s.dealt + 1, resps := [.range (s.dealt + 1) [] 0 false], wrote := false }
         | some _ => .error (.backend .drift) := by
-      unfold shimTxn
+      rw [shimTxn_cases]
       rw [classify_gdelete hc h0 he hg]
       simp only
       rw [shimDelete_fst c s n d.key, doDelete_far c s d.key (toU64 n) hfar]
